@@ -141,6 +141,11 @@ def gen_s2(rng, N, amps, p_dup=0.4):
             grp = [(i, r, phi) for r in parts]
             if rng.random() < 0.08:
                 grp[-1] = (i, grp[-1][1], 0.25)
+            elif rng.random() < 0.2:
+                # phases that differ inside the group, also on members without squeezing (placeholders), in either order
+                grp = [(i, r, rng.choice([0.0, 0.7, 0.25])) for r in parts]
+                if rng.random() < 0.6:
+                    grp[rng.randrange(len(grp))] = (i, 0.0, rng.choice([0.0, 0.7]))
             out += grp
         elif u < p_dup + 0.15:
             pass  # missing
@@ -351,6 +356,97 @@ SQ_VARIANTS = {"fixture": ([0, 1], [0.0, 1.0]), "interval": ([[0, 1]], [0.0, 0.5
 PH_VARIANTS = {"fixture": [0, [0, hw12.TWO_PI]], "interval": [[0, hw12.TWO_PI]], "narrow": [0, [0, 3.2]]}
 
 
+
+# ---------------------------------------------------------------- position sweep of non-implementable ingredients
+SWEEP_INGREDIENTS = ["sgate", "s2-half", "s2-cross-wrong", "bs-cross", "dgate", "rgate-one", "bs-half", "mz-half"]
+SWEEP_STAGES = ["first", "mid", "last"]
+
+
+def sweep_positions(N, ingr):
+    """every position class: signal half / idler half, first / last mode of the half, across the halves"""
+    if ingr in ("sgate", "dgate", "rgate-one"):
+        return [("signal-first", [0]), ("signal-last", [N - 1]), ("idler-first", [N]), ("idler-last", [2 * N - 1])]
+    if ingr in ("s2-half", "bs-half", "mz-half"):
+        if N < 2:
+            return []
+        return [("signal-first", [0, 1]), ("signal-last", [N - 2, N - 1]), ("signal-rev", [1, 0]),
+                ("idler-first", [N, N + 1]), ("idler-last", [2 * N - 2, 2 * N - 1]), ("idler-rev", [N + 1, N])]
+    if ingr == "s2-cross-wrong":
+        if N < 2:
+            return []
+        return [("first-to-last", [0, 2 * N - 1]), ("last-to-first", [N - 1, N]), ("idler-to-signal", [N, 1])]
+    if ingr == "bs-cross":
+        return [("own-pair", [0, N]), ("last-pair", [N - 1, 2 * N - 1]), ("other-pair", [0, 2 * N - 1]), ("reversed", [N, 0])]
+    return []
+
+
+def sweep_combos(N):
+    return [(i, pn, regs, st) for i in SWEEP_INGREDIENTS for pn, regs in sweep_positions(N, i) for st in SWEEP_STAGES]
+
+
+def gen_sweep_case(rng, nprng, N, comp, combo):
+    """a source of the device's form plus ONE extra ingredient at the given position and stage"""
+    ingr, pname, regs, stage = combo
+    n = 2 * N
+    ins = {"sgate": dict(cls="Sgate", regs=regs, pars=[0.4, 0.0]), "s2-half": dict(cls="S2gate", regs=regs, pars=[0.6, 0.0]),
+           "s2-cross-wrong": dict(cls="S2gate", regs=regs, pars=[0.5, 0.0]), "bs-cross": dict(cls="BSgate", regs=regs, pars=[0.4, 0.0]),
+           "dgate": dict(cls="Dgate", regs=regs, pars=[0.3, 0.0]), "rgate-one": dict(cls="Rgate", regs=regs, pars=[0.7]),
+           "bs-half": dict(cls="BSgate", regs=regs, pars=[0.5, 0.3]), "mz-half": dict(cls="MZgate", regs=regs, pars=[0.6, 0.9])}[ingr]
+    touched = {r % N for r in regs}
+    if comp == "Xstrict":
+        vals = {k: (rng.choice([0.0, 0.5, 1.0]) if k.startswith("squeezing") else dy(rng, 0, 6)) for k in hw12.x_gate_parameters(N, [0], [0])}
+        skel = [dict(cls=c, regs=list(m), pars=[vals[p_] if isinstance(p_, str) else p_ for p_ in ps]) for c, m, ps in hw12.x_layout_skeleton(N)]
+        s2 = [o for o in skel if o["cls"] == "S2gate"]
+        mid = [o for o in skel if o["cls"] not in ("S2gate", "MeasureFock")]
+        meas = [o for o in skel if o["cls"] == "MeasureFock"]
+    else:
+        # the pair(s) the ingredient touches are squeezed or (as often) left unsqueezed
+        s2 = [dict(cls="S2gate", regs=[i, i + N], pars=[(rng.choice([0.0, 0.5]) if i in touched else rng.choice([0.5, 1.0, 0.25])), 0.0]) for i in range(N)]
+        uk = rng.choice(["haar", "identity", "real", "phased_perm"] if N >= 2 else ["identity", "phases"])
+        U = hw12.rand_unitary(nprng, N, uk)
+        mid = [dict(cls="Interferometer", regs=list(range(N)), U=enc_U(U)), dict(cls="Interferometer", regs=list(range(N, n)), U=enc_U(U))]
+        meas = [dict(cls="MeasureFock", regs=list(range(n)), pars=[])]
+    ops_ = {"first": [ins] + s2 + mid, "mid": s2 + [ins] + mid, "last": s2 + mid + [ins]}[stage] + meas
+    case = dict(kind="x", N=N, comp=comp, sq="wide", ph="fixture", complist=rng.choice([[], [comp]]), modes=n,
+                desc=dict(n=n, ops=ops_), kinds=[f"sweep:{ingr}", f"sweep-pos:{pname}", f"sweep-stage:{stage}"])
+    return case
+
+
+def source_form(desc, N):
+    """independent of SF: is the source's state of the X-series form?  From the own reference state: adjacency matrix B (thewalrus
+    Amat of the own covariance) — B00 = B11 = 0 and B01 symmetric — plus zero mean; and, when the program is 'squeezers on the pairs
+    (i, i+N) first, then passive gates', the blocks of the passive unitary.  Returns a dict of the largest deviations."""
+    from thewalrus.quantum import Amat
+    nn = desc["n"]
+    if nn != 2 * N or any(o["cls"] in ("Del", "Dgate") for o in desc["ops"]):
+        return None
+    st = ref_state(nn, desc_oplist(desc))
+    A = Amat(st.V, hbar=2.0)
+    B = A[:nn, :nn]
+    out = dict(b00=float(np.max(np.abs(B[:N, :N]))), b11=float(np.max(np.abs(B[N:, N:]))),
+               asym=float(np.max(np.abs(B[:N, N:] - B[:N, N:].T))))
+    gates = [o for o in desc["ops"] if not o["cls"].startswith("Measure")]
+    k = 0
+    while k < len(gates) and gates[k]["cls"] == "S2gate" and gates[k]["regs"][1] == gates[k]["regs"][0] + N and gates[k]["regs"][0] < N:
+        k += 1
+    rest = gates[k:]
+    if all(o["cls"] in ("Rgate", "BSgate", "MZgate", "Interferometer") for o in rest):
+        # the passive part as a matrix: apply every gate to the identity
+        S = np.eye(2 * nn)
+        for o in rest:
+            if o["cls"] == "Interferometer":
+                U_ = dec_U(o["U"]); G = np.block([[U_.real, -U_.imag], [U_.imag, U_.real]])
+            else:
+                G, _ = sim.gate_symplectic(o["cls"], [float(x) for x in o["pars"]])
+            if o.get("dagger"):
+                G = np.linalg.inv(G)
+            m = list(o["regs"]); ix = m + [x + nn for x in m]
+            S[ix, :] = G @ S[ix, :]
+        U = S[:nn, :nn] + 1j * S[nn:, :nn]
+        out.update(u_off=float(max(np.max(np.abs(U[:N, N:])), np.max(np.abs(U[N:, :N])))), u_diff=float(np.max(np.abs(U[:N, :N] - U[N:, N:]))))
+    return out
+
+
 def gen_x_case(rng, nprng, thorough=False):
     N = rng.choice([2, 2, 3, 3, 4, 4, 5, 6] if thorough else [2, 2, 3, 3, 4, 5, 6])
     comp = rng.choice(["Xunitary", "Xunitary", "Xcov", "Xcov", "Xstrict"])
@@ -457,11 +553,21 @@ def _x_oracle(ctx, sf, case, count=True):
         if res[:3] != res2[:3]:
             ctx.fail(f"x-not-repeatable:{comp}", f"{comp}: compiling the same program for the same device twice gives {res[0]}/{res[1] if res[0] == 'err' else ''} "
                      f"then {res2[0]}/{res2[1] if res2[0] == 'err' else ''}", rp)
+    form = source_form(desc, N) if comp in ("Xcov", "Xunitary") else None
     if res[0] == "err":
         if count:
             ctx.count(f"x:{comp}:rejected", dict(c=case), len(desc["ops"]) >= 3)
             for k in case.get("kinds", []):
                 ctx.tally(f"x:kind:{k}")
+        # a rejection "not of the device's form" is only right when the source really is not (decided from the own reference state)
+        msg = str(res[3])
+        verdict = "cannot mix" in msg or "must be identical" in msg
+        if form and verdict and comp == "Xcov" and max(form["b00"], form["b11"], form["asym"]) < 1e-9:
+            ctx.fail("x-rejects-implementable:Xcov", f"Xcov rejects ('{msg[:60]}') a source whose adjacency matrix has B00 = B11 = 0 and symmetric B01 "
+                     f"(deviations {form})", rp)
+        if form and verdict and comp == "Xunitary" and "u_off" in form and max(form["u_off"], form["u_diff"]) < 1e-9:
+            ctx.fail("x-rejects-implementable:Xunitary", f"Xunitary rejects ('{msg[:60]}') squeezers on the pairs followed by a unitary that is the same on "
+                     f"both halves and does not mix them (deviations {form})", rp)
         if res[1] not in ("CircuitError", "ValueError(range)"):
             ctx.fail(f"x-compile-raises:{type(res[3]).__name__}:{comp}",
                      f"{comp} on {n} modes raised {res[1]} (neither a circuit error nor a compiled circuit)", rp)
@@ -469,6 +575,9 @@ def _x_oracle(ctx, sf, case, count=True):
             ctx.tally(f"x:{comp}:{res[1]}")
         return
     compiled = res[3]
+    if form and comp == "Xcov" and max(form["b00"], form["b11"]) > 1e-5:
+        ctx.fail("x-accepts-nonimplementable:Xcov", f"Xcov accepts a source whose state squeezes / entangles inside one half: max|B00| = {form['b00']:.3g}, "
+                 f"max|B11| = {form['b11']:.3g} (the chip only pairs mode i with mode i+N)", rp)
     if count:
         ctx.count(f"x:{comp}:accepted", dict(c=case), nz, sample=dict(N=N, comp=comp, kinds=case.get("kinds"), nops=len(desc["ops"])))
         for k in case.get("kinds", []):
@@ -1948,7 +2057,8 @@ def corr_xchecks(ctx, sf):
         comp = "Xunitary" if k % 2 == 0 else "Xcov"
         N = rng.choice([1, 2, 2, 3, 3, 4])
         n = 2 * N
-        variant = rng.choice(["sym", "sym", "eps-after", "eps-before", "mix-eps", "mix", "squeeze", "partial", "none", "badpair"])
+        variant = rng.choice(["sym", "sym", "eps-after", "eps-before", "mix-eps", "mix", "squeeze", "squeeze-idler", "s2-idler", "s2-signal",
+                              "partial", "none", "badpair"])
         prog = sf.Program(n)
         eps = rng.choice([5e-6, 9e-6, 1.2e-5, 2e-5, 1e-4, 1e-3])
         th = rng.choice([1e-9, 4e-9, 2.5e-8, 1e-6, 0.3])
@@ -1969,6 +2079,11 @@ def corr_xchecks(ctx, sf):
                     ops.BSgate(th if variant == "mix-eps" else 0.4, 0.0) | (q[0], q[N])
                 if variant == "squeeze":
                     ops.Sgate(0.3) | q[0]
+                if variant == "squeeze-idler":
+                    ops.Sgate(rng.choice([0.3, 1e-9, 3e-8])) | q[rng.randrange(N, n)]
+                if variant in ("s2-idler", "s2-signal") and N >= 2:
+                    o_ = N if variant == "s2-idler" else 0
+                    ops.S2gate(rng.choice([0.4, 2e-9, 5e-8])) | (q[o_], q[o_ + 1])
             ops.MeasureFock() | tuple(q)
         mod = xu if comp == "Xunitary" else xc
         store = []
@@ -2093,6 +2208,74 @@ def corr_extra(ctx, sf, fx):
         reqs.append(dict(op="hw.compatible", len=L, loops=[[fr(offs[i]), DELAYS[i], [fr(x) for x in phis[i]]] for i in range(3)]))
         pend.append(("tdm.utils.make_phases_compatible", case, impl))
         fn_check(ctx, sf, "compat", case)
+    # ---- GBS.compile: options of the combined Fock measurement (modes in any order, several commands, partial options)
+    from strawberryfields.compilers.gbs import GBS
+    for _ in range(ctx.n(60, 500)):
+        n = rng.randint(2, 6)
+        modes_ = list(range(n))
+        rng.shuffle(modes_)
+        k = rng.randint(1, n)
+        modes_ = modes_[:k] if rng.random() < 0.3 else modes_
+        cuts = sorted(rng.sample(range(1, len(modes_)), min(rng.randint(0, 2), len(modes_) - 1))) if len(modes_) > 1 else []
+        parts = [modes_[a:b] for a, b in zip([0] + cuts, cuts + [len(modes_)])]
+        kind = rng.choice(["none", "select-all", "select-some", "dark-all", "dark-some", "both"])
+        B = []
+        for pi_, regs in enumerate(parts):
+            d = dict(regs=regs, select=None, dark=None)
+            if kind == "select-all" or (kind in ("select-some", "both") and pi_ == 0):
+                d["select"] = [rng.randint(0, 3) for _ in regs]
+            if kind == "dark-all" or (kind == "dark-some" and rng.random() < 0.6) or (kind == "both" and pi_ == len(parts) - 1):
+                d["dark"] = [rng.choice([0.0, 0.125, 0.5]) for _ in regs]
+            if d["select"] is not None and d["dark"] is not None:
+                d["dark"] = None
+            B.append(d)
+        prog = sf.Program(n)
+        with prog.context as q:
+            ops.Sgate(0.3) | q[0]
+            for d in B:
+                ops.MeasureFock(select=d["select"], dark_counts=d["dark"]) | tuple(q[r] for r in d["regs"])
+        try:
+            out = GBS().compile(list(prog.circuit), prog.register)
+            last = out[-1]
+            impl = dict(modes=[r.ind for r in last.reg], select=(None if last.op.select is None else [int(x) for x in last.op.select]),
+                        dark=(None if last.op.dark_counts is None else [F(float(x)) for x in last.op.dark_counts]))
+        except pu.CircuitError:
+            impl = "CircuitError"
+        case = dict(B=B)
+        ctx.count("corr:gbs_options", case, len(B) >= 2 and kind != "none")
+        ctx.tally("corr:gbs_options:" + ("CircuitError" if impl == "CircuitError" else "ok"))
+        reqs.append(dict(op="hw.gbsOptions", B=[dict(regs=d["regs"], select=d["select"], dark=None if d["dark"] is None else [F(x) for x in d["dark"]]) for d in B]))
+        pend.append(("GBS.compile options", case, impl))
+    # ---- rectangular_symmetric: the phase push-through on top of rectangular_MZ (public), angles compared on the circle
+    import strawberryfields.decompositions as dec
+    nprng = ctx.nprng(53)
+    for _ in range(ctx.n(30, 250)):
+        N = rng.randint(2, 7)
+        V = hw12.rand_unitary(nprng, N, rng.choice(["haar", "haar", "real", "phased_perm", "block", "identity"]))
+        ti, dg, tl = dec.rectangular_MZ(V)
+        nt, nd, _none = dec.rectangular_symmetric(V)
+        fr_ = lambda x: [Fraction(float(x) / PI).limit_denominator(10 ** 12).numerator, Fraction(float(x) / PI).limit_denominator(10 ** 12).denominator]
+        blk = lambda t: [int(t[0]), int(t[1]), fr_(t[2]), fr_(t[3])]
+        impl = dict(tlist=[[int(t[0]), int(t[1]), float(t[2]) / PI, float(t[3]) / PI] for t in nt], diags=[float(np.angle(z)) / PI for z in nd])
+        case = dict(N=N, n_push=len(tl))
+        ctx.count("corr:symmetric_push", case, len(tl) >= 2)
+        reqs.append(dict(op="hw.symPush", tilist=[blk(t) for t in ti], tlist=[blk(t) for t in tl], diags=[fr_(np.angle(z)) for z in dg]))
+        pend.append(("rectangular_symmetric phase push", case, impl))
+        # property level: the returned blocks and diagonal reproduce the matrix (own product of the documented blocks)
+        def mz(m_, n_, pi_, pe_):
+            c_, s_ = math.cos(pi_ / 2), math.sin(pi_ / 2)
+            M = np.identity(N, dtype=complex)
+            g = 1j * np.exp(1j * pi_ / 2)
+            M[m_, m_], M[m_, n_], M[n_, m_], M[n_, n_] = g * s_ * np.exp(1j * pe_), g * c_, g * c_ * np.exp(1j * pe_), -g * s_
+            return M
+        W = np.identity(N, dtype=complex)
+        for t in nt:
+            W = mz(int(t[0]), int(t[1]), t[2], t[3]) @ W
+        W = np.diag(nd) @ W
+        ctx.oracle_cases += 1
+        if np.max(np.abs(W - V)) > 1e-8:
+            ctx.fail("fn:rectangular_symmetric:reconstruction", f"rectangular_symmetric on a {N}x{N} unitary: diag · product of the Mach-Zehnder blocks differs from "
+                     f"the input by {np.max(np.abs(W - V)):.3g}", dict(kind="symrec", V=enc_U(V)))
     # ---- parameter rules: Compiler.compile (hard-coded layout parameters), validate_gate_parameters (fixed layout values)
     for _ in range(ctx.n(60, 500)):
         def larg():
@@ -2141,6 +2324,18 @@ def canon(pair, model, impl, case):
     if pair == "X compile skeleton":
         m = dict(compiled=[list(x) for x in model["compiled"]], layout=[list(x) for x in model["layout"]], s2perm=True)
         return m, impl
+    if pair == "rectangular_symmetric phase push":
+        circ = lambda x, y: min((x - y) % 2, 2 - (x - y) % 2)
+        mt, md = model["tlist"], model["diags"]
+        if len(mt) != len(impl["tlist"]) or len(md) != len(impl["diags"]):
+            return model, impl
+        for a_, b_ in zip(mt, impl["tlist"]):
+            if a_[0] != b_[0] or a_[1] != b_[1] or circ(a_[2][0] / a_[2][1], b_[2]) > 1e-8 or circ(a_[3][0] / a_[3][1], b_[3]) > 1e-8:
+                return model, impl
+        for a_, b_ in zip(md, impl["diags"]):
+            if circ(a_[0] / a_[1], b_) > 1e-8:
+                return model, impl
+        return None
     if pair == "Borealis.add_loss":
         return model, (None if impl is None else [list(x) for x in impl])
     if pair == "parameter rules":
@@ -2244,8 +2439,13 @@ def run(ctx, sf):
     # ---- oracle
     rng = ctx.rng
     nprng = ctx.nprng(5)
-    for _ in range(ctx.n(330, 4000)):
+    for _ in range(ctx.n(270, 4000)):
         x_oracle(ctx, sf, gen_x_case(rng, nprng, ctx.tier == "thorough"))
+    # every non-implementable ingredient on every position class and stage, for every compiler
+    for N_ in ((2, 3) if ctx.tier == "quick" else (1, 2, 3, 4)):
+        for ci, combo in enumerate(sweep_combos(N_)):
+            for comp_ in (("Xcov", "Xunitary", "Xstrict") if ctx.tier != "quick" else (("Xcov",) + (("Xunitary",) if (ci + N_) % 2 == 0 else ("Xstrict",)))):
+                x_oracle(ctx, sf, gen_sweep_case(rng, nprng, N_, comp_, combo))
     for _ in range(ctx.n(45, 500)):
         borealis_oracle(ctx, sf, fx, gen_borealis_case(rng))
     for _ in range(ctx.n(40, 400)):
@@ -2358,6 +2558,17 @@ def replay(ctx, rp):
         tdm1_oracle(ctx, sf, rp, count=False)
     elif rp["kind"] == "none":
         return False
+    elif rp["kind"] == "symrec":
+        import strawberryfields.decompositions as dec
+        V = dec_U(rp["V"]); N = len(V)
+        nt, nd, _ = dec.rectangular_symmetric(V)
+        W = np.identity(N, dtype=complex)
+        for t in nt:
+            pi_, pe_, m_, n_ = t[2], t[3], int(t[0]), int(t[1])
+            M = np.identity(N, dtype=complex); g = 1j * np.exp(1j * pi_ / 2)
+            M[m_, m_], M[m_, n_], M[n_, m_], M[n_, n_] = g * math.sin(pi_ / 2) * np.exp(1j * pe_), g * math.cos(pi_ / 2), g * math.cos(pi_ / 2) * np.exp(1j * pe_), -g * math.sin(pi_ / 2)
+            W = M @ W
+        return bool(np.max(np.abs(np.diag(nd) @ W - V)) > 1e-8)
     elif rp["kind"] == "fn":
         fn_check(ctx, sf, rp["fn"], rp["case"], fixture_ns(sf))
     elif rp["kind"] == "history":
